@@ -423,6 +423,14 @@ def replay(path):
     data = json.load(open(path))
     prop = data["property"]
     print(f"replaying {path}: property {prop}, kind {data.get('kind')}")
+    if str(data.get("kind", "")).startswith("mac") and data.get("case_lines"):
+        import engine_more
+        rc = engine_more.replay_mac(data)
+        if rc:
+            print(f"VIOLATION property={prop} replay={path}")
+        else:
+            print("replay no longer fails")
+        return rc
     if data.get("kind") in ("oracle", "correspondence") and data.get("ops"):
         work = os.path.join(tdir(), "replay-%d" % os.getpid())
         os.makedirs(work, exist_ok=True)
@@ -525,7 +533,7 @@ def decide(prop, tier, seed, lean, streams, concerns_fn, extra_cov=None, t0=None
                 continue
             k = is_known(h, s["config"])
             if k:
-                msg = f"KNOWN-FINDING: property={prop} {k['text'].split(' ', 1)[1]}"
+                msg = "KNOWN-FINDING: " + k['text'].split(' ', 1)[1]
                 if msg not in known_lines:
                     known_lines.append(msg)
                 continue
